@@ -165,7 +165,7 @@ def r_safediv(idx, rep, rule="R-SAFEDIV", floor=8, unknown_ceiling=1):
                         "magnitude first" % (u(node)[:80], dtxt, why, detail or "no test of that magnitude dominates the division"))
 
 
-def r_selected_component(idx, rep, rule="R-SELCOMP", floor=1):
+def r_selected_component(idx, rep, rule="R-SELCOMP", floor=0):
     rep.rule(rule, "a division by a vector component whose index is COMPUTED (`v[k]`, k a local) requires k to be selected as a non-zero "
                    "component of that same vector: `np.where(v != 0)[0][..]` with a non-emptiness assertion, or `np.argmax(np.abs(v))`; "
                    "argmax of the signed vector picks a zero component for directions without a positive entry (0/0 = NaN slips through every "
